@@ -280,6 +280,89 @@ history_prop!(
     special_seen
 );
 
+/// Driven by the ENGINE's own move lists (no reference involved): whatever the generator
+/// emits is applied, so a malformed generated move shows up as a broken invariant.
+#[derive(Clone, Debug, serde::Serialize, serde::Deserialize)]
+pub struct EngineWalk {
+    pub fen: String,
+    /// (selector into the engine's list, undo instead of moving)
+    pub steps: Vec<(u16, bool)>,
+}
+
+pub struct C12EngineDriven;
+impl Prop for C12EngineDriven {
+    type Case = EngineWalk;
+    fn name(&self) -> &'static str {
+        "C12/engine-driven"
+    }
+    fn strategy(&self, _tier: Tier) -> BoxedStrategy<EngineWalk> {
+        (
+            prop_oneof![
+                3 => gen::seed_fen(),
+                3 => gen::promo_theme().prop_map(|r| gen::build(&r).fen()),
+                2 => gen::ep_theme().prop_map(|r| gen::build(&r).fen()),
+                2 => gen::castle_theme().prop_map(|r| gen::build(&r).fen()),
+                1 => gen::pawn_placement().prop_map(|r| gen::build(&r).fen()),
+            ],
+            prop::collection::vec((any::<u16>(), prop::bool::weighted(0.2)), 1..60),
+        )
+            .prop_map(|(fen, steps)| EngineWalk { fen, steps })
+            .boxed()
+    }
+    fn cases(&self, tier: Tier) -> u32 {
+        tier.pick(3_000, 80_000)
+    }
+    fn test(&self, w: &EngineWalk, st: &mut Stats) -> TestResult {
+        use chess::move_generator::MoveGenerator;
+        let seed = Pos::from_fen(&w.fen).map_err(Failure::new)?;
+        let mut board = to_board(&seed);
+        let mut g = MoveGenerator::new();
+        let mut stack: Vec<chess::chess_move::chess_move::ChessMove> = Vec::new();
+        let mut special = false;
+        let mut trail: Vec<String> = Vec::new();
+        let describe = |trail: &Vec<String>| json!({"seed": w.fen, "moves": trail.join(" ")});
+        for (sel, undo) in &w.steps {
+            if *undo {
+                if let Some(m) = stack.pop() {
+                    board.toggle_turn();
+                    if let Err(e) = m.undo(&mut board) {
+                        return Err(Failure::new(format!("undo of the engine-generated move {} failed: {:?}", mv_text(&mv_of(&m)), e)).with(describe(&trail)));
+                    }
+                    trail.push("undo".into());
+                    if let Err(e) = check_invariants(&board) {
+                        return Err(Failure::new(format!("after undoing {}: {}", mv_text(&mv_of(&m)), e)).with(describe(&trail)));
+                    }
+                }
+                continue;
+            }
+            let turn = board.turn();
+            let list = g.generate_moves(&mut board, turn);
+            if list.is_empty() {
+                break;
+            }
+            let m = list[(*sel as usize * list.len()) >> 16].clone();
+            let t = mv_of(&m);
+            if t.kind != Kind::Std {
+                special = true;
+            }
+            if let Err(e) = m.apply(&mut board) {
+                return Err(Failure::new(format!("the engine-generated move {} failed to apply: {:?}", mv_text(&t), e)).with(describe(&trail)));
+            }
+            board.toggle_turn();
+            trail.push(mv_text(&t));
+            stack.push(m);
+            st.count("states", 1);
+            if let Err(e) = check_invariants(&board) {
+                return Err(Failure::new(format!("after the engine-generated move {}: {}", mv_text(&t), e)).with(describe(&trail)));
+            }
+        }
+        if special {
+            st.nontrivial(fp_of(w), || describe(&trail));
+        }
+        Ok(())
+    }
+}
+
 // ------------------------------------------------------------------------------ C16
 
 pub const C16_RULE: &str = "reference-tracked games of up to 420 operations through ChessMove::apply/undo from set-up and reachable seeds (seed clocks 0..39), with a quiet-move-biased policy producing capture-free, pawn-move-free stretches up to the 150 plies a legal game allows, interleaved with pawn moves, captures, en passant, castling and promotions, and undo segments; after every apply and undo halfmove_clock() must equal the reference plies-since-capture-or-pawn-move and fullmove_clock() must equal 1 + plies made (compared as u64), no call may panic (overflow checks are on); evaluate::game_ending on every non-terminal node (no repetition registered) must be Draw iff the reference clock >= 100. Non-trivial = game has a quiet stretch >= 20 with a pawn move ending it, or crosses ply 255/256, or reaches clock >= 50; distinct = hash of the op sequence.";
